@@ -186,7 +186,7 @@ Proof.
   { eapply PI_ext; [eapply settle_all_frame; exact E0|]. eapply PI_ext; [|exact PI]. split; reflexivity. }
   match type of E with context [match ?r with DpeOk _ => _ | DpeInternalError => _ end] => destruct r as [d1|] eqn:E1 end; [|discriminate E].
   assert (P1 : initial_in_list d1).
-  { destruct (negb (d_private d0)); [exact (proj1 (dpe_round _ _ P0 E1))|].
+  { destruct (d_pexen d0); [exact (proj1 (dpe_round _ _ P0 E1))|].
     destruct (d_pex_active d0); [|inversion E1; subst; exact P0].
     destruct (disable_all (d_size_pex d0) (d_conns d0)) as [l sp]. inversion E1; subst. eapply PI_ext; [|exact P0]. split; reflexivity. }
   destruct (ka_loop (length (d_conns d1)) (d_size_pex d1) (d_conns d1)) as [[l2 sp2] o2].
@@ -195,7 +195,7 @@ Qed.
 
 Lemma step_PI : forall fx d o d' outs, initial_in_list d -> step fx d o = SOk d' outs -> initial_in_list d'.
 Proof.
-  intros fx d o d' outs PI E. destruct o as [i|i ms| |i|i b]; cbn [step] in E.
+  intros fx d o d' outs PI E. destruct o as [i|i ms| |i|i b|b]; cbn [step] in E.
   - destruct (existsb (N.eqb i) (d_used d)); inversion E; subst; [exact PI|]. eapply PI_ext; [|exact PI]. split; reflexivity.
   - destruct (find_conn i (d_conns d)) as [c|]; [|inversion E; subst; exact PI].
     eapply PI_ext; [eapply settle_frame; exact E|]. eapply PI_ext; [|exact PI]. split; reflexivity.
@@ -205,6 +205,7 @@ Proof.
     inversion E; subst. eapply PI_ext; [|exact PI]. split; reflexivity.
   - destruct (find_conn i (d_conns d)) as [c|]; [|inversion E; subst; exact PI].
     eapply PI_ext; [eapply settle_frame; exact E|]. eapply PI_ext; [|exact PI]. split; reflexivity.
+  - inversion E; subst. eapply PI_ext; [|exact PI]. split; reflexivity.
 Qed.
 
 Lemma init_PI : forall priv m minp, initial_in_list (init priv m minp).
